@@ -1,5 +1,447 @@
 package main
 
+// lockfacts: for every function of the library, every access to a field of the
+// shared structs (Srv, Conn, SrvReq, SrvFid, Clnt, Req, Fid, Logger, osUsers,
+// ClntList, Pool, Tag), every channel operation, goroutine start and call into the
+// file-server implementation, together with the set of mutexes held at that point.
+//
+// Lockset tracking is syntactic and follows the patterns this code base uses:
+// x.Lock() / x.Unlock() / defer x.Unlock() on a value of a struct type embedding
+// sync.Mutex; statements are walked in source order, branches (if/else, switch,
+// select, for) with a copy of the current lockset, joined by intersection.
+// A construct the translator cannot handle is a hard error.
+
+import (
+	"bytes"
+	"fmt"
+	"go/ast"
+	"go/token"
+	"go/types"
+	"sort"
+	"strings"
+)
+
+var trackedStructs = map[string]bool{"Srv": true, "Conn": true, "SrvReq": true, "SrvFid": true, "Clnt": true, "Req": true,
+	"Fid": true, "Logger": true, "osUsers": true, "ClntList": true, "Pool": true, "Tag": true, "ufsFid": true, "File": true}
+
+var opsInterfaces = map[string]bool{"SrvReqOps": true, "AuthOps": true, "FlushOp": true, "SrvFidOps": true, "ConnOps": true,
+	"SrvReqProcessOps": true}
+
+type lockT struct {
+	owner string // struct type of the locked object
+	base  string // source text of the locked object
+}
+
+type factT struct {
+	fn     string
+	kind   string // R | W | SEND | RECV | GO | OPS | CLOSE
+	strct  string
+	field  string
+	base   string
+	locks  []lockT
+	fresh  bool // the accessed object was allocated in this function (not yet shared)
+	line   int
+}
+
+type lfCtx struct {
+	p     *pkgInfo
+	fn    string
+	facts *[]factT
+	fresh map[string]bool
+}
+
+func exprText(fset *token.FileSet, e ast.Expr) string {
+	var b bytes.Buffer
+	_ = ast.Fprint(&b, fset, nil, nil)
+	return types.ExprString(e)
+}
+
+func namedStruct(t types.Type) string {
+	for {
+		if p, ok := t.(*types.Pointer); ok {
+			t = p.Elem()
+			continue
+		}
+		break
+	}
+	if n, ok := t.(*types.Named); ok {
+		if _, ok := n.Underlying().(*types.Struct); ok {
+			return n.Obj().Name()
+		}
+	}
+	return ""
+}
+
+func copyLocks(l []lockT) []lockT { return append([]lockT{}, l...) }
+
+func intersect(a, b []lockT) []lockT {
+	var out []lockT
+	for _, x := range a {
+		for _, y := range b {
+			if x == y {
+				out = append(out, x)
+				break
+			}
+		}
+	}
+	return out
+}
+
+func (c *lfCtx) add(kind, strct, field, base string, locks []lockT, pos token.Pos) {
+	*c.facts = append(*c.facts, factT{fn: c.fn, kind: kind, strct: strct, field: field, base: base, locks: copyLocks(locks),
+		fresh: c.fresh[base], line: c.p.fset.Position(pos).Line})
+}
+
+// lockCall recognises x.Lock() / x.Unlock(); returns (owner, base, isLock, ok)
+func (c *lfCtx) lockCall(call *ast.CallExpr) (lockT, bool, bool) {
+	sel, ok := call.Fun.(*ast.SelectorExpr)
+	if !ok || (sel.Sel.Name != "Lock" && sel.Sel.Name != "Unlock") || len(call.Args) != 0 {
+		return lockT{}, false, false
+	}
+	tv, ok := c.p.info.Types[sel.X]
+	if !ok {
+		return lockT{}, false, false
+	}
+	owner := namedStruct(tv.Type)
+	if owner == "" {
+		return lockT{}, false, false
+	}
+	return lockT{owner, types.ExprString(sel.X)}, sel.Sel.Name == "Lock", true
+}
+
+// accesses records the field reads in an expression (writes are handled by the caller)
+func (c *lfCtx) reads(e ast.Node, locks []lockT) {
+	if e == nil {
+		return
+	}
+	ast.Inspect(e, func(n ast.Node) bool {
+		switch x := n.(type) {
+		case *ast.FuncLit:
+			// a closure: analysed as its own function with an empty lockset (it may run later)
+			sub := &lfCtx{p: c.p, fn: c.fn + ".func", facts: c.facts, fresh: map[string]bool{}}
+			sub.block(x.Body.List, nil)
+			return false
+		case *ast.SelectorExpr:
+			if s, ok := c.p.info.Selections[x]; ok && s.Kind() == types.FieldVal {
+				owner := namedStruct(s.Recv())
+				if trackedStructs[owner] {
+					c.add("R", owner, x.Sel.Name, types.ExprString(x.X), locks, x.Pos())
+				}
+			}
+		case *ast.UnaryExpr:
+			if x.Op == token.ARROW {
+				c.chanOp("RECV", x.X, locks, x.Pos())
+			}
+		case *ast.CallExpr:
+			c.call(x, locks)
+		}
+		return true
+	})
+}
+
+func (c *lfCtx) chanOp(kind string, ch ast.Expr, locks []lockT, pos token.Pos) {
+	strct, field, base := "", types.ExprString(ch), ""
+	if sel, ok := ch.(*ast.SelectorExpr); ok {
+		if s, ok := c.p.info.Selections[sel]; ok && s.Kind() == types.FieldVal {
+			strct, field, base = namedStruct(s.Recv()), sel.Sel.Name, types.ExprString(sel.X)
+		}
+	}
+	c.add(kind, strct, field, base, locks, pos)
+}
+
+func (c *lfCtx) call(call *ast.CallExpr, locks []lockT) {
+	// calls into the implementation: method of one of the ops interfaces
+	if sel, ok := call.Fun.(*ast.SelectorExpr); ok {
+		if s, ok := c.p.info.Selections[sel]; ok && s.Kind() == types.MethodVal {
+			if n, ok := s.Recv().(*types.Named); ok {
+				if _, isIface := n.Underlying().(*types.Interface); isIface && opsInterfaces[n.Obj().Name()] {
+					c.add("OPS", n.Obj().Name(), sel.Sel.Name, "", locks, call.Pos())
+				}
+			}
+		}
+	}
+	if id, ok := call.Fun.(*ast.Ident); ok {
+		switch id.Name {
+		case "close":
+			if len(call.Args) == 1 {
+				c.chanOp("CLOSE", call.Args[0], locks, call.Pos())
+			}
+		case "delete":
+			if len(call.Args) == 2 {
+				c.write(call.Args[0], locks)
+			}
+		}
+	}
+}
+
+// write records a write to the field designated by lhs (x.f = .., x.f[k] = .., x.f++)
+func (c *lfCtx) write(lhs ast.Expr, locks []lockT) {
+	switch x := lhs.(type) {
+	case *ast.SelectorExpr:
+		if s, ok := c.p.info.Selections[x]; ok && s.Kind() == types.FieldVal {
+			owner := namedStruct(s.Recv())
+			if trackedStructs[owner] {
+				c.add("W", owner, x.Sel.Name, types.ExprString(x.X), locks, x.Pos())
+			}
+		}
+		c.reads(x.X, locks)
+	case *ast.IndexExpr:
+		c.write(x.X, locks)
+		c.reads(x.Index, locks)
+	case *ast.StarExpr:
+		c.reads(x.X, locks)
+	case *ast.ParenExpr:
+		c.write(x.X, locks)
+	default:
+		c.reads(lhs, locks)
+	}
+}
+
+// stmt processes one statement and returns the lockset after it
+func (c *lfCtx) stmt(s ast.Stmt, locks []lockT) []lockT {
+	switch x := s.(type) {
+	case nil:
+		return locks
+	case *ast.ExprStmt:
+		if call, ok := x.X.(*ast.CallExpr); ok {
+			if l, isLock, ok := c.lockCall(call); ok {
+				if isLock {
+					return append(copyLocks(locks), l)
+				}
+				var out []lockT
+				removed := false
+				for _, h := range locks {
+					if h == l && !removed {
+						removed = true
+						continue
+					}
+					out = append(out, h)
+				}
+				return out
+			}
+		}
+		c.reads(x.X, locks)
+	case *ast.DeferStmt:
+		if _, isLock, ok := c.lockCall(x.Call); ok && !isLock {
+			return locks // defer x.Unlock(): the lock stays held to the end of the function
+		}
+		c.reads(x.Call, locks)
+	case *ast.AssignStmt:
+		for _, r := range x.Rhs {
+			c.reads(r, locks)
+			// x := new(T) / &T{} / make: the object is fresh
+			if len(x.Lhs) == 1 {
+				if id, ok := x.Lhs[0].(*ast.Ident); ok {
+					switch rr := r.(type) {
+					case *ast.CallExpr:
+						if f, ok := rr.Fun.(*ast.Ident); ok && f.Name == "new" {
+							c.fresh[id.Name] = true
+						}
+					case *ast.UnaryExpr:
+						if _, ok := rr.X.(*ast.CompositeLit); ok && rr.Op == token.AND {
+							c.fresh[id.Name] = true
+						}
+					}
+				}
+			}
+		}
+		for _, l := range x.Lhs {
+			if x.Tok == token.DEFINE {
+				if _, ok := l.(*ast.Ident); ok {
+					continue
+				}
+			}
+			c.write(l, locks)
+		}
+	case *ast.IncDecStmt:
+		c.write(x.X, locks)
+	case *ast.SendStmt:
+		c.reads(x.Value, locks)
+		c.chanOp("SEND", x.Chan, locks, x.Pos())
+		if sel, ok := x.Chan.(*ast.SelectorExpr); ok {
+			c.reads(sel.X, locks)
+		}
+	case *ast.GoStmt:
+		c.add("GO", "", types.ExprString(x.Call.Fun), "", locks, x.Pos())
+		for _, a := range x.Call.Args {
+			c.reads(a, locks)
+		}
+		if fl, ok := x.Call.Fun.(*ast.FuncLit); ok {
+			sub := &lfCtx{p: c.p, fn: c.fn + ".go", facts: c.facts, fresh: map[string]bool{}}
+			sub.block(fl.Body.List, nil)
+		}
+	case *ast.ReturnStmt:
+		for _, r := range x.Results {
+			c.reads(r, locks)
+		}
+	case *ast.BlockStmt:
+		return c.block(x.List, locks)
+	case *ast.IfStmt:
+		locks = c.stmt(x.Init, locks)
+		c.reads(x.Cond, locks)
+		a := c.block(x.Body.List, copyLocks(locks))
+		b := locks
+		if x.Else != nil {
+			b = c.stmt(x.Else, copyLocks(locks))
+		}
+		if endsInJump(x.Body) {
+			return b
+		}
+		if x.Else != nil {
+			if eb, ok := x.Else.(*ast.BlockStmt); ok && endsInJump(eb) {
+				return a
+			}
+		}
+		return intersect(a, b)
+	case *ast.ForStmt:
+		locks = c.stmt(x.Init, locks)
+		c.reads(x.Cond, locks)
+		body := c.block(x.Body.List, copyLocks(locks))
+		c.stmt(x.Post, body)
+		return locks
+	case *ast.RangeStmt:
+		c.reads(x.X, locks)
+		c.block(x.Body.List, copyLocks(locks))
+		return locks
+	case *ast.SwitchStmt:
+		locks = c.stmt(x.Init, locks)
+		c.reads(x.Tag, locks)
+		return c.clauses(x.Body.List, locks)
+	case *ast.TypeSwitchStmt:
+		locks = c.stmt(x.Init, locks)
+		c.stmt(x.Assign, locks)
+		return c.clauses(x.Body.List, locks)
+	case *ast.SelectStmt:
+		return c.clauses(x.Body.List, locks)
+	case *ast.LabeledStmt:
+		return c.stmt(x.Stmt, locks)
+	case *ast.DeclStmt:
+		c.reads(x, locks)
+	case *ast.BranchStmt, *ast.EmptyStmt:
+	default:
+		die("lockfacts: unhandled statement %T in %s", s, c.fn)
+	}
+	return locks
+}
+
+func endsInJump(b *ast.BlockStmt) bool {
+	if b == nil || len(b.List) == 0 {
+		return false
+	}
+	switch b.List[len(b.List)-1].(type) {
+	case *ast.ReturnStmt, *ast.BranchStmt:
+		return true
+	}
+	return false
+}
+
+func (c *lfCtx) clauses(list []ast.Stmt, locks []lockT) []lockT {
+	var outs [][]lockT
+	for _, cl := range list {
+		switch x := cl.(type) {
+		case *ast.CaseClause:
+			for _, e := range x.List {
+				c.reads(e, locks)
+			}
+			o := c.block(x.Body, copyLocks(locks))
+			if len(x.Body) == 0 || !isJump(x.Body[len(x.Body)-1]) {
+				outs = append(outs, o)
+			}
+		case *ast.CommClause:
+			l2 := c.stmt(x.Comm, copyLocks(locks))
+			o := c.block(x.Body, l2)
+			if len(x.Body) == 0 || !isJump(x.Body[len(x.Body)-1]) {
+				outs = append(outs, o)
+			}
+		}
+	}
+	res := locks
+	for _, o := range outs {
+		res = intersect(res, o)
+	}
+	return res
+}
+
+func isJump(s ast.Stmt) bool {
+	switch s.(type) {
+	case *ast.ReturnStmt, *ast.BranchStmt:
+		return true
+	}
+	return false
+}
+
+func (c *lfCtx) block(list []ast.Stmt, locks []lockT) []lockT {
+	for _, s := range list {
+		locks = c.stmt(s, locks)
+	}
+	return locks
+}
+
+func coqString(s string) string {
+	return "\"" + strings.ReplaceAll(s, "\"", "\"\"") + "\""
+}
+
 func genLockFacts(repo, out string) {
-	writeIfChanged(out, []byte("(* GENERATED placeholder: lock facts translator not built yet *)\n"))
+	p := load(repo)
+	var facts []factT
+	files := map[string]bool{"srv_srv.go": true, "srv_conn.go": true, "srv_fcall.go": true, "srv_respond.go": true,
+		"clnt_clnt.go": true, "clnt_pool.go": true, "clnt_tag.go": true, "clnt_mount.go": true, "clnt_read.go": true,
+		"clnt_write.go": true, "clnt_open.go": true, "clnt_walk.go": true, "clnt_stat.go": true, "clnt_close.go": true,
+		"clnt_remove.go": true, "log.go": true, "osusers.go": true, "ufs.go": true}
+	for _, f := range p.files {
+		name := p.fset.Position(f.Pos()).Filename
+		base := name[strings.LastIndex(name, "/")+1:]
+		if !files[base] {
+			continue
+		}
+		for _, d := range f.Decls {
+			fd, ok := d.(*ast.FuncDecl)
+			if !ok || fd.Body == nil {
+				continue
+			}
+			c := &lfCtx{p: p, fn: funcName(fd), facts: &facts, fresh: map[string]bool{}}
+			c.block(fd.Body.List, nil)
+		}
+	}
+	// canonical order, duplicates merged; line numbers only in comments
+	sort.SliceStable(facts, func(i, j int) bool {
+		a, b := facts[i], facts[j]
+		if a.fn != b.fn {
+			return a.fn < b.fn
+		}
+		return a.line < b.line
+	})
+	var b bytes.Buffer
+	b.WriteString("(* GENERATED by /verif/gen (lockfacts) from /repo's working tree on every check run. Do not edit. *)\n")
+	b.WriteString("From Coq Require Import String List Bool.\nImport ListNotations.\nLocal Open Scope string_scope.\n\n")
+	b.WriteString("Inductive akind := AR | AW | ASend | ARecv | AGo | AOps | AClose.\n")
+	b.WriteString("Record lockfact := mkLF { lf_fn : string; lf_kind : akind; lf_struct : string; lf_field : string; lf_base : string;\n")
+	b.WriteString("  lf_locks : list (string * string) (* owner struct, locked object *); lf_fresh : bool }.\n\n")
+	b.WriteString("Definition lock_facts : list lockfact := [\n")
+	kindName := map[string]string{"R": "AR", "W": "AW", "SEND": "ASend", "RECV": "ARecv", "GO": "AGo", "OPS": "AOps", "CLOSE": "AClose"}
+	seen := map[string]bool{}
+	first := true
+	for _, f := range facts {
+		var ls []string
+		for _, l := range f.locks {
+			ls = append(ls, fmt.Sprintf("(%s, %s)", coqString(l.owner), coqString(l.base)))
+		}
+		fr := "false"
+		if f.fresh {
+			fr = "true"
+		}
+		line := fmt.Sprintf("  mkLF %s %s %s %s %s [%s] %s", coqString(f.fn), kindName[f.kind], coqString(f.strct), coqString(f.field),
+			coqString(f.base), strings.Join(ls, "; "), fr)
+		if seen[line] {
+			continue
+		}
+		seen[line] = true
+		if !first {
+			b.WriteString(";\n")
+		}
+		first = false
+		b.WriteString(line)
+	}
+	b.WriteString("\n].\n")
+	writeIfChanged(out, b.Bytes())
 }
